@@ -37,6 +37,7 @@ type State struct {
 	Kind   Kind
 	N      int // replay size / unicast buffer (-1 unlimited)
 	Status int
+	ErrTag string // which error terminated the subject (Status == Errored)
 	Mem    []int // replay buffer / unicast queue / [last] for behavior & async
 	HasMem bool  // behavior: always true; async: a value was published
 	Subs   map[int]*Sub
@@ -65,7 +66,7 @@ func (s *State) Clone() *State {
 
 func (s *State) Key() string {
 	var b strings.Builder
-	fmt.Fprintf(&b, "%s/%d/%d/%v/%v|", s.Kind, s.N, s.Status, s.Mem, s.HasMem)
+	fmt.Fprintf(&b, "%s/%d/%d%s/%v/%v|", s.Kind, s.N, s.Status, s.ErrTag, s.Mem, s.HasMem)
 	ids := make([]int, 0, len(s.Subs))
 	for id := range s.Subs {
 		ids = append(ids, id)
@@ -144,15 +145,17 @@ func (s *State) Next(v int) {
 	}
 }
 
-func (s *State) Error() {
+// Error terminates the subject with the error named tag (an ignored second Error leaves the first one in place).
+func (s *State) Error(tag ...string) {
 	if s.Status != Open {
 		return
 	}
 	s.Status = Errored
+	s.ErrTag = strings.Join(tag, "")
 	if s.DropBacklog && s.Kind == Unicast && len(s.active()) == 0 {
 		s.Mem = nil
 	}
-	s.terminate("E")
+	s.terminate("E" + s.ErrTag)
 }
 
 func (s *State) Complete() {
@@ -178,7 +181,7 @@ func (s *State) Subscribe(id int) {
 	term := ""
 	switch s.Status {
 	case Errored:
-		term = "E"
+		term = "E" + s.ErrTag
 	case Completed:
 		term = "C"
 	}
